@@ -35,7 +35,7 @@ static long ncases(int tier) { return tier ? 300000 : 5000; }
 enum { MX_MEAN, MX_SCALE, MX_CELL, MX_RESMEAN, MX_RESSTAT, MX_APPLY_SAME, MX_APPLY_NEW, MX_COMPACT, MX_PAIR, MX_CS_AVG, MX_CS_SD, MX_CS_RMS, MX_CS_VAR, MX_CONSTCOL, MX_CONSTSCALE, NMX };
 static const char *MXNAME[NMX] = {
   "max_dev_colaverage_eps_meanabs", "max_dev_colscaling_eps_scale", "max_dev_transformed_cell_eps_scale", "max_dev_result_column_mean_eps_scale",
-  "max_dev_promised_statistic_eps_rel", "max_dev_apply_same_vs_fit_eps_rel", "max_dev_apply_new_rows_eps_scale", "max_dev_missing_removed_column_eps_scale",
+  "max_dev_promised_statistic_eps_rel", "max_dev_apply_same_vs_fit_eps_scale", "max_dev_apply_new_rows_eps_scale", "max_dev_missing_removed_column_eps_scale",
   "max_dev_mask_pair_backtransform_eps_scale", "max_dev_MatrixColAverage_eps_meanabs", "max_dev_MatrixColSDEV_eps_scale", "max_dev_MatrixColRMS_eps_rel",
   "max_dev_MatrixColVar_eps_scale", "max_dev_constant_column_residue_eps_scale", "max_dev_constant_column_scaling_eps_meanabs" };
 static double g_mx[NMX];
@@ -246,11 +246,12 @@ static void fit_and_judge(vh_ctx *c, fitres *f, int type)
     cstat *s = &f->cs[j];
     double gm = f->ave->data[j], gs = f->scal->data[j];
     ld mused = s->m, meanabs = s->sumabs / s->np, want, tolscale;
+    ld ampl = type == 5 && s->m != 0 ? meanabs / fabsl(s->m) : 0;   /* level scaling divides by a mean known to eps*meanabs: relative error of the scale */
     int zero;
     /* stored average */
-    if (!near_(MX_MEAN, gm, s->m, meanabs)) {
-      if (s->maysnap && gm == 0) { f->snapped[j] = 1; mused = 0; vh_obs("colaverage_zero_snap_columns", 1); }
-      else { vh_fail(c, "MatrixPreprocess|colaverage", "column %zu: stored %.17g, mean of the %zu present cells %.17Lg (column sum %.6Lg)", j, gm, s->np, s->m, s->sum); f->ok = 0; continue; }
+    if (s->maysnap && gm == 0 && s->m != 0) { f->snapped[j] = 1; mused = 0; vh_obs("colaverage_zero_snap_columns", 1); }   /* the documented alternative */
+    else if (!near_(MX_MEAN, gm, s->m, meanabs)) {
+      { vh_fail(c, "MatrixPreprocess|colaverage", "column %zu: stored %.17g, mean of the %zu present cells %.17Lg (column sum %.6Lg)", j, gm, s->np, s->m, s->sum); f->ok = 0; continue; }
     }
     /* stored scaling (Pareto in sd units so that a constant column is judged on one scale) */
     switch (type) {
@@ -276,7 +277,7 @@ static void fit_and_judge(vh_ctx *c, fitres *f, int type)
         if (zero) {
           if (t != 0 && !bad) { vh_fail(c, optkey(kb, sizeof kb, "MatrixPreprocess|zero-spread-column-not-zero", type), "column %zu (scaling value 0): t[%zu] = %.17g", j, i, t); bad = 1; }
         } else {
-          ld e = s->constant ? 0 : f->snapped[j] ? ((ld)x - mused) / s->sc : LM(f->LT, i, j), sc = (fabsl((ld)x) + fabsl(s->m) + meanabs) / fabsl(s->sc);
+          ld e = s->constant ? 0 : f->snapped[j] ? ((ld)x - mused) / s->sc : LM(f->LT, i, j), sc = (fabsl((ld)x) + fabsl(s->m) + meanabs) / fabsl(s->sc) + fabsl(e) * ampl;
           if (!near_(s->constant ? MX_CONSTCOL : MX_CELL, t, e, sc) && !bad) {
             vh_fail(c, optkey(kb, sizeof kb, "MatrixPreprocess|transform-value", type), "t[%zu][%zu] = %.17g, (x - mean)/scale = %.17Lg (x %.17g mean %.17Lg scale %.17Lg, %zu of %zu cells present)", i, j, t, e, x, mused, s->sc, s->np, n);
             bad = 1;
@@ -287,7 +288,7 @@ static void fit_and_judge(vh_ctx *c, fitres *f, int type)
       if (bad) { f->ok = 0; continue; }
       /* the promise itself, on the library's output: mean 0 and the option's statistic */
       if (!zero && !s->constant) {
-        ld mres = sres / s->np, vres = 0, sdres, target, cond = 1 + meanabs / s->sd, tsc = (2 * meanabs) / fabsl(s->sc);
+        ld mres = sres / s->np, vres = 0, sdres, target, cond = 1 + meanabs / s->sd + ampl, tsc = (2 * meanabs) / fabsl(s->sc);
         for (i = 0; i < n; i++) if (!or_is_missing(X->data[i][j])) { ld d = f->T->data[i][j] - mres; vres += d * d; }
         sdres = sqrtl(vres / (s->np - 1));
         ld dev = fabsl(mres) - fabsl(s->m - mused) / fabsl(s->sc);      /* a zero-snapped mean leaves the column mean at m/scale */
@@ -328,7 +329,7 @@ static void judge_apply(vh_ctx *c, fitres *f, int type, const block *b)
       if (type >= 0 && or_is_missing(X->data[i][j])) continue;
       ncmp++;
       if (!memcmp(&t, &u, sizeof t)) { nbit++; continue; }
-      if (!near_(MX_APPLY_SAME, u, t, fabsl((ld)t))) {
+      if (!near_(MX_APPLY_SAME, u, t, fabsl((ld)t) + (type >= 0 && fabsl((ld)f->scal->data[j]) >= 1e-3L ? (fabsl((ld)X->data[i][j]) + fabsl((ld)f->ave->data[j])) / fabsl((ld)f->scal->data[j]) : 0))) {
         vh_fail(c, optkey(kb, sizeof kb, "MatrixPreprocess|apply-same-differs-from-fit", type), "cell [%zu][%zu]: apply %.17g fit %.17g (x %.17g)", i, j, u, t, X->data[i][j]);
         i = n; break;
       }
@@ -434,7 +435,7 @@ static void judge_colstats(vh_ctx *c, fitres *f)
   for (j = 0; j < p; j++) col_stat(f->LX, j, 1, &cs[j]);
   initDVector(&d); MatrixColAverage(X, d);
   if (d->size != p) vh_fail(c, "MatrixColAverage|shape", "%zu values for %zu columns", d->size, p);
-  else for (j = 0; j < p; j++) if (!near_(MX_CS_AVG, d->data[j], cs[j].m, cs[j].sumabs / cs[j].np) && !(cs[j].maysnap && d->data[j] == 0)) {
+  else for (j = 0; j < p; j++) if (!(cs[j].maysnap && d->data[j] == 0) && !near_(MX_CS_AVG, d->data[j], cs[j].m, cs[j].sumabs / cs[j].np)) {
     vh_fail(c, "MatrixColAverage|value", "column %zu: %.17g, mean of the %zu present cells %.17Lg", j, d->data[j], cs[j].np, cs[j].m); break; }
   DelDVector(&d);
   initDVector(&d); MatrixColSDEV(X, d);
@@ -449,7 +450,7 @@ static void judge_colstats(vh_ctx *c, fitres *f)
   DelDVector(&d);
   initDVector(&d); MatrixColVar(X, d);
   if (d->size != p) vh_fail(c, "MatrixColVar|shape", "%zu values for %zu columns", d->size, p);
-  else for (j = 0; j < p; j++) { ld ma = cs[j].sumabs / cs[j].np; if (!near_(MX_CS_VAR, d->data[j], cs[j].sd * cs[j].sd, cs[j].sd * cs[j].sd + (cs[j].sd + ma * EPS) * ma)) {
+  else for (j = 0; j < p; j++) { ld ma = cs[j].sumabs / cs[j].np; if (!near_(MX_CS_VAR, d->data[j], cs[j].sd * cs[j].sd, cs[j].sd * cs[j].sd + (cs[j].sd + cs[j].np * EPS * ma) * ma)) {
     vh_fail(c, "MatrixColVar|value", "column %zu: %.17g, sample variance of the %zu present cells %.17Lg", j, d->data[j], cs[j].np, cs[j].sd * cs[j].sd); break; } }
   DelDVector(&d);
   for (j = 0; j < p; j++) {
